@@ -99,6 +99,14 @@ func (e *DefaultCompactionExecutor) CompactFiles(task *CompactionTask) ([]string
 		return nil
 	}
 
+	// A deletion marker may only be dropped when no older version of its key
+	// can survive the compaction. Older versions live in deeper levels (the
+	// strategy feeds every overlapping file of the target level into the
+	// task), so markers are kept whenever a level below the target holds
+	// data, whatever the tombstone tracker remembers - it knows nothing
+	// about deletions made before a restart or inside transactions.
+	olderDataBelow := e.hasFilesBelow(task.TargetLevel)
+
 	// Create a tombstone filter if we have a tombstone manager
 	var tombstoneFilter *BasicTombstoneFilter
 	if e.tombstoneManager != nil {
@@ -131,7 +139,9 @@ func (e *DefaultCompactionExecutor) CompactFiles(task *CompactionTask) ([]string
 		var shouldKeep bool
 		isTombstone := mergedIter.IsTombstone()
 
-		if tombstoneFilter != nil && isTombstone {
+		if isTombstone && olderDataBelow {
+			shouldKeep = true
+		} else if tombstoneFilter != nil && isTombstone {
 			// Use the tombstone filter for tombstones
 			shouldKeep = tombstoneFilter.ShouldKeep(key, nil)
 		} else {
@@ -180,6 +190,28 @@ func (e *DefaultCompactionExecutor) CompactFiles(task *CompactionTask) ([]string
 	}
 
 	return outputFiles, nil
+}
+
+// hasFilesBelow reports whether any SSTable exists in a level deeper than the
+// given one. On any doubt it answers true, which only keeps markers longer.
+func (e *DefaultCompactionExecutor) hasFilesBelow(level int) bool {
+	entries, err := os.ReadDir(e.sstableDir)
+	if err != nil {
+		return !os.IsNotExist(err)
+	}
+
+	for _, entry := range entries {
+		var fileLevel int
+		var sequence uint64
+		var timestamp int64
+		if n, err := fmt.Sscanf(entry.Name(), "%d_%06d_%020d.sst", &fileLevel, &sequence, &timestamp); n == 3 && err == nil {
+			if fileLevel > level {
+				return true
+			}
+		}
+	}
+
+	return false
 }
 
 // DeleteCompactedFiles removes the input files that were successfully compacted
